@@ -4,7 +4,7 @@ from __future__ import annotations
 from harness import chartlab as lab, common
 
 ID = "C07"
-LEAN_MODULES = ["PptxModel.Props.C07", "PptxModel.Props.C07H"]
+LEAN_MODULES = ["PptxModel.Props.C07", "PptxModel.Props.C07H", "PptxModel.Props.C07R"]
 RULE = (
     "every chart type the writer supports (found by probing ChartXmlWriter) x seeded chart data: string / numeric / date "
     "categories (dates either side of the 1900 leap-year bug, 1904), 2-4 level ragged hierarchies, missing values, 0..6 "
@@ -79,6 +79,8 @@ def check_chart(ctx, chart, spec, ct, stage, lines, impl, metas):
         d1904 = root.xpath("string(/c:chartSpace/c:date1904/@val)", namespaces=lab.NS) in ("1", "true")
         want = expect_cat_strings(spec, d1904)
         for pl in api:
+            if not pl["series"]:
+                continue        # a plot without series (foreign state: a trailing empty plot) has no categories to report
             if pl["cats"] != want:
                 ctx.fail("categories" + (":empty-label" if "" in want else ""), f"{ct.name} [{stage}]: categories {pl['cats'][:6]}, supplied {want[:6]}", case)
                 break
@@ -128,17 +130,137 @@ def check_chart(ctx, chart, spec, ct, stage, lines, impl, metas):
         impl.append(out); metas.append(case)
         ctx.case(key=lines[-1] + ct.name + stage)
 
+_DATA = ("idx", "order", "tx", "cat", "val", "xVal", "yVal", "bubbleSize")
+
+
+class Pop:
+    """the series population of a chart as `Model/Replace` sees it: plots in document order (own content fingerprinted
+    without the series), series in document order with element identity, c:idx, c:order and a fingerprint of everything
+    that is not data.  Read from the raw XML, not through the library's `sers` / `last_ser` accessors."""
+
+    def __init__(self, chart):
+        self.cs = chart._chartSpace
+        self.keep = []          # elements kept alive so that id() stays an identity
+        self.uids = {}
+        self.fp = {}
+
+    def _fp(self, el, drop):
+        import copy
+        from lxml import etree
+        c = copy.deepcopy(el)
+        for k in list(c):
+            if etree.QName(k).localname in drop and etree.QName(k).namespace == lab.NS["c"]:
+                c.remove(k)
+        key = etree.tostring(c, method="c14n", exclusive=True)
+        return self.fp.setdefault(key, len(self.fp))
+
+    def plots(self):
+        from lxml import etree
+        pa = self.cs.find("c:chart/c:plotArea", lab.NS)
+        return [] if pa is None else [e for e in pa if isinstance(e.tag, str) and etree.QName(e).localname.endswith("Chart")]
+
+    def snap(self):
+        plots = self.plots()
+        sers = [s for pl in plots for s in pl.findall("c:ser", lab.NS)]
+        nxt = max(self.uids.values(), default=-1) + 1     # a Pop lives for ONE call: new elements continue the numbering
+        for s in sers:
+            if id(s) not in self.uids:
+                self.uids[id(s)] = nxt; nxt += 1
+                self.keep.append(s)
+        out, order = [], []
+        for pl in plots:
+            row = []
+            for s in pl.findall("c:ser", lab.NS):
+                row.append((self.uids[id(s)], int(s.find("c:idx", lab.NS).get("val")), int(s.find("c:order", lab.NS).get("val")), self._fp(s, _DATA)))
+            out.append((self._fp(pl, ("ser",)), row))
+            order += [r[0] for r in sorted(row, key=lambda r: r[2])]
+        return out, order
+
+    @staticmethod
+    def enc(pop):
+        return "|".join("%d:%s" % (t, ",".join("%d.%d.%d.%d" % r for r in row)) for t, row in pop) or "!"
+
+
+def replace_and_compare(ctx, chart, cd, n, case, lines, impl, metas):
+    """chart.replace_data(cd) with the series population before / after handed to the Lean model of
+    `_adjust_ser_count`; re-raises what the library raises"""
+    from lxml import etree
+    pop = Pop(chart)
+    try:
+        pre, _ = pop.snap()
+    except (AttributeError, TypeError, ValueError):
+        chart.replace_data(cd)
+        return
+    before = etree.tostring(chart._chartSpace, method="c14n")
+    line = "c07.repl %d %s" % (n, Pop.enc(pre))
+    try:
+        chart.replace_data(cd)
+    except Exception:
+        if etree.tostring(chart._chartSpace, method="c14n") != before:
+            ctx.fail("replace-data-refused-but-changed", "replace_data raised and left the chart XML changed", case)
+        lines.append(line); impl.append("refused"); metas.append(case)
+        raise
+    post, order = pop.snap()
+    import os
+    if os.environ.get("C07_DEBUG") and [t for t, _ in pre] != [t for t, _ in post] and len(pre) == len(post):
+        inv = {v: k for k, v in pop.fp.items()}
+        for (a, _), (b, _) in zip(pre, post):
+            if a != b:
+                print("PLOT-CHANGED\n", inv[a].decode(), "\n", inv[b].decode())
+    lines.append(line); impl.append("%s %s" % (Pop.enc(post), ",".join(map(str, order)) or "!")); metas.append(case)
+    ctx.case(key=line)
+    ctx.count("replace-population-%s" % ("grow" if sum(len(r) for _, r in pre) < n else "shrink" if sum(len(r) for _, r in pre) > n else "same"))
+    if len(pre) > 1:
+        ctx.count("replace-population-multi-plot")
+
+
+def doc_order(rng, cs):
+    """the c:ser children of one plot in another DOCUMENT order than their c:order (what 'Select Data > move up' leaves
+    behind in some producers); the library reads series by c:order, so nothing it reports may depend on this"""
+    done = False
+    for pl in cs.xpath("//c:plotArea/*[c:ser]"):
+        sers = pl.xpath("./c:ser")
+        if len(sers) < 2:
+            continue
+        anchor = sers[-1].getnext()
+        perm = rng.sample(sers, len(sers))
+        for x in sers:
+            pl.remove(x)
+        for x in perm:
+            if anchor is None:
+                pl.append(x)
+            else:
+                anchor.addprevious(x)
+        done = True
+    return done
+
 
 def foreign_state(ctx, rng, chart):
     """put the chart into a state other producers write and the library's own writer never does: series whose c:idx
     and c:order were permuted (re-ordered in 'Select Data'), the 1904 date system"""
     cs = chart._chartSpace
     sers = cs.xpath("//c:ser")
-    what = rng.choice(["permute", "permute", "date1904", "both", "combo", "combo"])
+    what = rng.choice(["permute", "permute", "date1904", "both", "combo", "combo", "docorder", "emptyplot"])
     if what == "combo":
         from harness.props.c08 import make_combo
         if make_combo(rng, chart):
             ctx.count("foreign-state-combination-chart")
+            if rng.random() < 0.5 and doc_order(rng, cs):
+                ctx.count("foreign-state-document-order")
+        return
+    if what == "docorder":
+        if doc_order(rng, cs):
+            ctx.count("foreign-state-document-order")
+        return
+    if what == "emptyplot":
+        # a trailing plot that holds no series (valid: c:ser is minOccurs=0 in every CT_*Chart)
+        from pptx.oxml import parse_xml
+        bars = cs.xpath("//c:plotArea/c:barChart")
+        if len(bars) == 1 and not cs.xpath("//c:plotArea/c:lineChart"):
+            ax = "".join('<c:axId val="%s"/>' % a.get("val") for a in bars[0].xpath("./c:axId"))
+            bars[0].addnext(parse_xml('<c:lineChart xmlns:c="http://schemas.openxmlformats.org/drawingml/2006/chart"><c:grouping val="standard"/>'
+                                      '<c:varyColors val="0"/><c:marker val="1"/>%s</c:lineChart>' % ax))
+            ctx.count("foreign-state-trailing-empty-plot")
         return
     if what in ("permute", "both") and len(sers) > 1:
         for tag in ("c:idx", "c:order"):
@@ -234,14 +356,14 @@ def correspond(ctx):
                         marks.append(s._element)
                     except Exception:  # noqa
                         pass
-                if rng.random() < 0.3:
+                if rng.random() < 0.4:
                     foreign_state(ctx, rng, chart)
                 if kind == "cat" and r == 0 and rng.random() < 0.35 and spec["series"]:
                     # the SAME chart-data object used again after it has grown (a sub-category under an existing
                     # branch, or one more category; one more value in each series)
                     if grow_same_object(rng, spec, cd):
                         try:
-                            chart.replace_data(cd)
+                            replace_and_compare(ctx, chart, cd, len(cd), {"chart_type": ct.name, "data": str(spec)[:400]}, lines, impl, metas)
                         except Exception as e:  # noqa
                             ctx.fail("replace-data-raises:" + ct.name, f"{ct.name}: replace_data with the grown chart-data object raised {type(e).__name__}: {str(e)[:150]}", {"chart_type": ct.name, "data": str(spec)[:400]})
                             break
@@ -256,7 +378,7 @@ def correspond(ctx):
                     spec2, cd2 = lab.gen_xy_data(rng, bubble=(kind == "bubble"))
                 had_series = sum(len(pl.series) for pl in chart.plots)
                 try:
-                    chart.replace_data(cd2)
+                    replace_and_compare(ctx, chart, cd2, len(cd2), {"chart_type": ct.name, "data": str(spec2)[:400]}, lines, impl, metas)
                 except Exception as e:  # noqa
                     if had_series == 0 and spec2["series"]:
                         ctx.fail("replace-data-on-zero-series", f"{ct.name}: replace_data with {len(spec2['series'])} series on a chart that has no series raised {type(e).__name__}: {str(e)[:100]}", {"chart_type": ct.name})
@@ -299,7 +421,7 @@ def correspond(ctx):
                 else:
                     spec2, cd2 = lab.gen_cat_data(rng, n_series=(1 if "PIE" in ct.name else nser + rng.choice([1, 2])))
                 try:
-                    chart.replace_data(cd2)
+                    replace_and_compare(ctx, chart, cd2, len(cd2), {"deck": d.name}, lines, impl, metas)
                 except Exception as e:  # noqa
                     ctx.fail("replace-data-raises:" + ct.name, f"{d.name}: replace_data on a corpus {ct.name} chart raised {type(e).__name__}: {str(e)[:150]}", {"deck": d.name})
                     continue
@@ -312,7 +434,7 @@ def correspond(ctx):
     for case, i, m in zip(metas, impl, res):
         ctx.traces += 1
         if i != m:
-            ctx.disagree("value-cache", case, i, m)
+            ctx.disagree("series-population" if " " in i and ":" in i.split(" ")[0] or i == "refused" else "value-cache", case, i, m)
     if lines:
         ctx.sample({"line": lines[0], "impl": impl[0], "case": metas[0]})
 
